@@ -3,6 +3,8 @@ from __future__ import annotations
 
 from .values import *  # noqa
 from .shapes import fresh_state
+from .values import znum, zbool, concrete_int
+import z3
 
 CONFIG_FIELDS = ('automations', 'deck', 'hand_types', 'streets', 'betting_structure', 'ante_trimming_status',
                  'bring_in', 'player_count', 'mode', 'starting_board_count', 'divmod', 'rake', 'antes',
@@ -56,4 +58,88 @@ def pure_cut(result, name=None):
                 I.cut_log = []
             I.cut_log.append((fn.qual, memo[key]))
         return memo[key]
+    return cut
+
+
+def optional_strength_cut(name='entry'):
+    """contract of a lookup query (`get_entry_or_none`) used where only its order matters: the result is
+    None or an entry; entries are totally pre-ordered by their index (C04), modelled as an integer strength"""
+    def cut(I, ctx, fn, args, kwargs, node):
+        import z3
+        none = I.fresh(name + '?none', 'bool')
+        v = I.fresh(name, 'int')
+        return Choice(((none, None), (z3.Not(none), v)))
+    return cut
+
+
+def rake_cut():
+    """assumed contract of `State.rake` (proved for the default helper under C19; assumed of a user-supplied one):
+    for amount >= 0 the result is a pair (raked, unraked) with raked + unraked == amount, both >= 0"""
+    def cut(I, ctx, fn, args, kwargs, node):
+        amount = args[0]
+        raked = I.fresh('raked', 'chips')
+        unraked = I.fresh('unraked', 'chips')
+        I.axiom(z3.Implies(znum(amount) >= 0, z3.And(raked + unraked == znum(amount), raked >= 0, unraked >= 0)))
+        return (raked, unraked)
+    return cut
+
+
+def can_win_now_cut():
+    """assumed contract of `State.can_win_now` where only hand killing uses it (lemma m1 of C12 / C02): pure, and
+    among the players still in the hand at least one can win now (a strongest hand of some pot's contenders)"""
+    def cut(I, ctx, fn, args, kwargs, node):
+        st = ctx.get(args[0])
+        i = concrete_int(args[1])
+        if i is None:
+            raise PyvcUnsupported('can_win_now cut with a symbolic player index')
+        memo = I.__dict__.setdefault('cwn', {})
+        if not memo:
+            from . import models
+            statuses = models.to_seq(I, ctx, st.fields['statuses'])
+            n = len(statuses)
+            for k in range(n):
+                memo[k] = I.fresh(f'can_win_now[{k}]', 'bool')
+            live = [zbool(x) for x in statuses]
+            I.axiom(z3.Implies(z3.Or(*live), z3.Or(*[z3.And(live[k], memo[k]) for k in range(n)])))
+        return memo[i]
+    return cut
+
+
+def pots_cut(vc, shape, contract_cls, clause='pots_hold_the_collected_chips', pre=()):
+    """`State.pots` replaced by its contract (contracts/c01.py:pots, discharged on its own): the
+    precondition components are obligations at the call, the result is a fresh list of at most n pots about
+    which only the postcondition clause is known"""
+    from .shapes import Builder
+    from .cascade import add_clause_obligation
+    from .harness import FunctionVC
+    import importlib
+    st = importlib.import_module('pokerkit.state')
+    counter = [0]
+
+    def cut(I, ctx, fn, args, kwargs, node):
+        k = counter[0]
+        counter[0] += 1
+        b0 = dict(vc.bindings)
+        b0['s'] = args[0]
+        for comp in pre:
+            add_clause_obligation(vc, ctx, comp, b0, f'{comp}-at-call-pots' + (f'#{k}' if k else ''), kind='P',
+                                  path=f'call:{fn.qual}@{getattr(node, "lineno", "?")}', extra_meta={'callee': fn.qual, 'component': comp})
+        b = Builder(I, f'pots{k}.', {})
+        n = shape.n
+
+        def pot(nm):
+            return ctx.alloc('obj', SymObj(st.Pot, {
+                'raked_amount': b.chips(nm + '.raked_amount'), 'unraked_amount': b.chips(nm + '.unraked_amount'),
+                'player_indices': b.seq(nm + '.player_indices', n, lambda x: b.int(x, 0, n - 1))}))
+        res = b.seq('pot', shape.pots_cap, pot)
+        I.axiom(And_(*b.wf))
+        # assume the callee's postcondition about (state at the call, result)
+        sub_vc = vc.__class__.__new__(vc.__class__)
+        sub_vc.__dict__.update(vc.__dict__)
+        sub_vc.ccls = contract_cls
+        t, sub, defs = FunctionVC.eval_clause(sub_vc, clause, ctx, {'s': args[0], 'r': res})
+        for d in defs:
+            ctx.assume(d)
+        ctx.assume(t)
+        return res
     return cut
